@@ -401,7 +401,7 @@ impl Ctx {
         });
         match res {
             Ok(()) => {}
-            Err(TestError::Fail(_, minimal)) => {
+            Err(TestError::Fail(reason, minimal)) => {
                 let (v, case) = check(&minimal, true);
                 match v {
                     Verdict::Fail { signature, detail } => {
@@ -410,8 +410,8 @@ impl Ctx {
                     other => {
                         // should not happen (deterministic checks); keep the evidence anyway
                         self.record_violation(
-                            "non-deterministic-failure",
-                            &format!("minimal case no longer fails: {other:?}"),
+                            reason.message(),
+                            &format!("observed during the search; the shrunk case did not fail again when re-run ({other:?}) - schedule- or address-dependent"),
                             kind,
                             case,
                         )
